@@ -132,9 +132,10 @@ def c18_xcheck(pid, tier, seed, work):
             h = hashlib.sha1()
             d = epoch + datetime.timedelta(days=lo, seconds=sod)
             one = datetime.timedelta(days=1)
-            for _ in range(lo, hi):
+            for i in range(lo, hi):
                 h.update(email.utils.format_datetime(d, usegmt=True).encode() + b"\n")
-                d += one
+                if i + 1 < hi:  # the last block ends on 9999-12-31: stepping past it would leave datetime's range
+                    d += one
             n += hi - lo
             counts["dates_in_blocks"] = counts.get("dates_in_blocks", 0) + hi - lo
             if h.hexdigest() != f[4]:
